@@ -90,13 +90,17 @@ def pattern(counter: int, size: int) -> bytes:
     return _PAT[k:k + size]
 
 
-def frame(tc, src, counter, size):
+DESTS = {"bcast": (0, 0), "toR1": (31, 31), "mixed": (33, 0)}  # pattern -> dest_mod_id of (P1's, P2's) messages; odd counters only
+
+
+def frame(tc, src, counter, size, dest=0):
     return P.mkframe(T1, pattern(counter, size), timecode=tc, src_mod_id=src,
-                     send_time=float(counter), msg_count=999)
+                     send_time=float(counter), msg_count=999, dest_mod_id=dest)
 
 
 def execute(case) -> Dict[str, Any]:
-    tc, n, sizes, sched = case
+    tc, n, sizes, sched = case[:4]
+    dests = DESTS[case[4]] if len(case) > 4 else (0, 0)
     mmx.fresh_gc()
     w = mmx.World(timecode=tc)
     problems: List[Dict[str, Any]] = []
@@ -147,7 +151,7 @@ def execute(case) -> Dict[str, Any]:
                 buf = b""
                 for _ in range(k):
                     sent[pi] += 1
-                    buf += frame(tc, IDS[slot], sent[pi], sizes[(sent[pi] + pi) % len(sizes)])
+                    buf += frame(tc, IDS[slot], sent[pi], sizes[(sent[pi] + pi) % len(sizes)], dests[pi] if sent[pi] % 2 else 0)
                 if buf:
                     w.clients[slot].send(buf)
             if st.get("ctl"):
@@ -203,7 +207,11 @@ def cases_for(tier: str):
     for tc, n, sizes, bound in plan:
         for b in base_schedules(n):
             for s in deviations(b, bound, tier):
-                cases.append((tc, n, sizes, s))
+                cases.append((tc, n, sizes, s, "bcast"))
+            # messages addressed to one module: the other subscribers are passed over (no frame, no sequence number)
+            for pat in ("toR1", "mixed"):
+                for s in deviations(b, min(bound, 1), tier):
+                    cases.append((tc, n, sizes, s, pat))
     return cases
 
 
@@ -237,7 +245,7 @@ def run(tier: str) -> int:
             for p in problems:
                 chk.violation(f"C05:{p['kind']}", f"{p}", {"module": "vf.checks.c05", "case": list(case)},
                               size=len(case[3]) * 10 + sum(1 for st in case[3] if len(st) > 2))
-    chk.sample({"tc": cases[0][0], "n": cases[0][1], "schedule": cases[0][3]})
+    chk.sample({"tc": cases[0][0], "n": cases[0][1], "schedule": cases[0][3], "destinations": cases[0][4]})
     chk.sample({"schedule_with_deviation": cases[-1][3]})
     chk.assumptions += ["virtual TCP model (vf.net)", "2 publishers, <= 3 messages each, 4 receivers", "<= 2 deviations per schedule"]
     return chk.finish({"states": nexec, "transitions": rounds, "traces_validated_against_impl": nexec,
@@ -247,8 +255,9 @@ def run(tier: str) -> int:
 
 def replay(case) -> int:
     c = case["case"]
-    r1 = execute((c[0], c[1], tuple(c[2]), c[3]))
-    r2 = execute((c[0], c[1], tuple(c[2]), c[3]))
+    cc = (c[0], c[1], tuple(c[2]), c[3]) + tuple(c[4:5])
+    r1 = execute(cc)
+    r2 = execute(cc)
     if str(r1["problems"]) != str(r2["problems"]):
         print("HARNESS-ERROR: non-deterministic replay")
         return 2
